@@ -3,7 +3,7 @@ CONSTANTS
   MaxE = 6
   MaxOps = 12
   GenHist = TRUE
-  GenKinds = {"H", "T"}
+  GenKinds = {"T"}
 INIT Init
 NEXT GenNext
 INVARIANTS Emit
